@@ -9,7 +9,7 @@ EXTENDS Naturals, Integers, Sequences, FiniteSets, TLC, Json, IOUtils
 
 ProgsIn == ndJsonDeserialize(IOEnv.PROGS)
 
-INSTANCE Shuttle WITH Progs <- ProgsIn, TrackWoken <- FALSE, SpuriousWakeups <- FALSE
+INSTANCE Shuttle WITH Progs <- ProgsIn, TrackWoken <- TRUE, SpuriousWakeups <- FALSE
 
 VARIABLES S,     \* abstract state
           hist   \* witness interleaving: <<code index, pc, "C" | "B">> per step (hidden from the fingerprint by VIEW)
@@ -18,7 +18,11 @@ View == S
 
 Init == \E p \in 1..Len(ProgsIn) : S = InitState(p) /\ hist = <<>>
 
-Returned(s, c) == \E t \in Tasks(s) : s.ix[t+1] = c /\ s.pc[t+1] > Len(Prog(s).tasks[c+1]) + 1
+\* the task running code c has completed all of its operations (its closure returns in the same step
+\* as its last operation: there is no scheduling point in between)
+Returned(s, c) == \E t \in Tasks(s) : /\ s.ix[t+1] = c /\ ~s.canc[t+1]
+                                        /\ s.pc[t+1] > Len(Prog(s).tasks[c+1])
+                                        /\ (Len(Prog(s).tasks[c+1]) > 0 \/ s.pc[t+1] > 1)
 
 Record(res, s, t) ==
   IF NextOp(s, t).k = "ret" THEN res.s
